@@ -1,3 +1,4 @@
+\* X02 lock-level model of pre_go17.go with timerCtx: goroutines + timer goroutines + ticks, every interleaving
 SPECIFICATION Spec
 CONSTANTS
   NP = 2
